@@ -169,8 +169,8 @@ package fshelper
 // ---- C04: stream copies report every failure and close what they opened ----
 //@ func StreamCopy [C04 C06]
 //@   layers contract trace
-//@   requires sourcefs != nil && destfs != nil && sourcefs != destfs
-//@   only_calls sourcefs : ReadDir IsExist IsFile IsDir ReadFile Reader Lstat Filespace
+//@   requires sourcefs != nil && destfs != nil
+//@   only_calls sourcefs unless sourcefs == destfs : ReadDir IsExist IsFile IsDir ReadFile Reader Lstat Filespace
 //@   trace Filespace.Reader as READER bind rd
 //@   trace Filespace.Writer as WRITER bind wr
 //@   trace io.Copy as COPY bind cp
@@ -189,8 +189,8 @@ package fshelper
 
 //@ func Copier.copyFile [C04 C06]
 //@   layers contract trace
-//@   requires c.SrcFS != nil && c.DestFS != nil && c.SrcFS != c.DestFS
-//@   only_calls c.SrcFS : ReadDir IsExist IsFile IsDir ReadFile Reader Lstat Filespace
+//@   requires c.SrcFS != nil && c.DestFS != nil
+//@   only_calls c.SrcFS unless c.SrcFS == c.DestFS : ReadDir IsExist IsFile IsDir ReadFile Reader Lstat Filespace
 //@   trace Filespace.Reader as READER bind rd
 //@   trace Filespace.Writer as WRITER bind wr
 //@   trace io.Copy as COPY bind cp
@@ -209,8 +209,8 @@ package fshelper
 
 //@ func Copier.Do [C04 C06]
 //@   layers contract trace
-//@   requires c.SrcFS != nil && c.DestFS != nil && c.SrcFS != c.DestFS
-//@   only_calls c.SrcFS : ReadDir IsExist IsFile IsDir ReadFile Reader Lstat Filespace
+//@   requires c.SrcFS != nil && c.DestFS != nil
+//@   only_calls c.SrcFS unless c.SrcFS == c.DestFS : ReadDir IsExist IsFile IsDir ReadFile Reader Lstat Filespace
 //@   trace Copier.copyFile as FILE bind fe
 //@   trace Copier.copyDirectory as DIR bind de
 //@   at_call Copier.copyFile requires $0 == c
@@ -221,7 +221,8 @@ package fshelper
 // source's child view into the destination's child view; the source itself is only read
 //@ func Copier.copyDirectory [C04 C06]
 //@   layers contract trace
-//@   requires c.SrcFS != nil && c.DestFS != nil && c.SrcFS != c.DestFS
+//@   requires c.SrcFS != nil && c.DestFS != nil
+//@   only_calls c.SrcFS unless c.SrcFS == c.DestFS : ReadDir IsExist IsFile IsDir ReadFile Reader Lstat Filespace
 //@   trace Filespace.IsDir as ISDIR
 //@   trace Filespace.Filespace as VIEW bind view
 //@   trace Filespace.MkdirAll as MKDIR bind mk
@@ -235,7 +236,7 @@ package fshelper
 // the per-file callback of the tree copy returns the error of the directory creation or of the stream copy
 //@ func Copy$2 [C04 C06]
 //@   layers contract trace
-//@   requires destfs != nil && srcfs != nil && srcfs != destfs
+//@   requires destfs != nil && srcfs != nil
 //@   trace Filespace.MkdirAll as MKDIR bind mk
 //@   trace StreamCopy as STREAM bind sc
 //@   at_call StreamCopy requires $0 == srcfs && $1 == destfs && $2 == subPath
@@ -252,5 +253,5 @@ package fshelper
 // tree copy: the source is only read; per-node work is done by the callbacks above
 //@ func Copy [C04 C06]
 //@   layers contract
-//@   requires srcfs != nil && destfs != nil && srcfs != destfs
-//@   only_calls srcfs : ReadDir IsExist IsFile IsDir ReadFile Reader Lstat Filespace
+//@   requires srcfs != nil && destfs != nil
+//@   only_calls srcfs unless srcfs == destfs : ReadDir IsExist IsFile IsDir ReadFile Reader Lstat Filespace
